@@ -51,6 +51,9 @@ def run_case(case):
             mon.count('skipped_empty_or_huge')
             continue
         sl = crys.sitelist(chem)
+        if len(sl) > 1 and rng.uniform() < 0.5:
+            sl = [[int(i) for i in rng.permutation(sl[k])] for k in rng.permutation(len(sl))]   # user-built site list in any order
+            mon.count('shuffled_sitelists')
         N = len(crys.basis[chem])
         inv = gen.invmap(sl, N)
         sigma = float(rng.choice([0.3, 1., 3.]))
